@@ -56,6 +56,12 @@ def gen_inp(rng, allow_ens=True):
                          thresholds=sorted(rng.sample([-5.0, 0.0, 0.5, 5.0, 10.0, 10.1, 25.4, 273.15], rng.randint(1, 3))) if prob else [],
                          quantiles=sorted(rng.sample([0.0, 0.1, 0.5, 0.9, 1.0], rng.randint(1, 3))) if prob else [],
                          members=members, others=others, miss=rng.choice([0.0, 0.1, 0.3]), variable=var)
+    if rng.random() < 0.25:
+        # genuine values below the -999 marker (an accumulated flux, a depth): data in both formats, not missing
+        for c in inp["cells"].values():
+            for f_ in ("obs", "fcst"):
+                if c.get(f_) is not None and rng.random() < 0.2:
+                    c[f_] = rng.choice([-1000.0, -1500.25, -2048.0, -999.5])
     return inp
 
 
@@ -77,7 +83,8 @@ def nc_style(rng, inp):
     fits = max(inp["times"]) < 2 ** 31 - 1
     # every on-disk flavour of NetCDF the library writes (HDF5-based, classic, 64-bit offset, CDF-5)
     fmt_ = rng.choice(["NETCDF4", "NETCDF4", "NETCDF4_CLASSIC", "NETCDF3_CLASSIC", "NETCDF3_64BIT_OFFSET", "NETCDF3_64BIT_DATA"])
-    return {"format": fmt_, "enc": rng.sample(gen.NC_MISSING_ENC, rng.randint(1, 4)), "order": order, "vars": vars_,
+    unset = rng.randint(0, len(inp["times"])) if rng.random() < 0.15 else None
+    return {"format": fmt_, "unset_time_slot": unset, "enc": rng.sample(gen.NC_MISSING_ENC, rng.randint(1, 4)), "order": order, "vars": vars_,
             "time_type": "i4" if (fits and rng.random() < 0.5) else "f8", "shuffled": shuffled}
 
 
@@ -98,7 +105,8 @@ def index_maps(inpobj, inp, by_id=True):
 def compare_readers(ctx, a, b, inp, st_nc, case):
     """a = text reader, b = netcdf reader; compare by coordinates."""
     import numpy as np
-    if sorted(float(x) for x in a.times) != sorted(float(x) for x in b.times):
+    # (an unwritten slot of the NetCDF time dimension reads as a missing time: no case belongs to it)
+    if sorted(float(x) for x in a.times) != sorted(float(x) for x in b.times if float(x) == float(x)):
         ctx.violation("dims-differ|time", "text times %s, NetCDF times %s" % (list(a.times), list(b.times)), case)
         return False
     if sorted(float(x) for x in a.leadtimes) != sorted(float(x) for x in b.leadtimes):
